@@ -26,13 +26,15 @@ import (
 )
 
 type netRec struct {
-	Fam     string  `json:"fam"`
-	Allow   [][]int `json:"allow"`
-	Deny    [][]int `json:"deny"`
-	Addr    []int   `json:"addr"`
-	Net     string  `json:"net"`
-	Reach   string  `json:"reach"`
-	Verdict string  `json:"verdict"`
+	Fam      string   `json:"fam"`
+	Allow    [][]int  `json:"allow"`
+	Deny     [][]int  `json:"deny"`
+	Addr     []int    `json:"addr"`
+	Net      string   `json:"net"`
+	Reach    string   `json:"reach"`
+	Verdict  string   `json:"verdict"`
+	Extra    [][]int  `json:"extra"`    // further A records of the same name
+	XVerdict []string `json:"xverdict"` // and their verdicts
 }
 
 var badCIDRs = []string{"not-a-cidr", "10.0.0.0", "10.0.0.0/33", "", "fc00::/129", "10.0.0/8", "0.0.0.0/0/0", "127.1.0.0-127.1.255.255", "*"}
@@ -50,7 +52,21 @@ func entryText(e []int, salt int) string {
 	if e[0] == 0 {
 		return badCIDRs[((salt%len(badCIDRs))+len(badCIDRs))%len(badCIDRs)]
 	}
-	return octets(e[2:]).String() + "/" + strconv.Itoa(e[1])
+	// valid but unusual spellings of one and the same range: host bits set, upper-case hex
+	ip := append(net.IP(nil), octets(e[2:])...)
+	switch ((salt % 3) + 3) % 3 {
+	case 1:
+		for b := e[1]; b < 8*len(ip); b++ { // bits beyond the prefix do not belong to the range
+			if b%3 == 0 {
+				ip[b/8] |= 0x80 >> uint(b%8)
+			}
+		}
+	case 2:
+		if len(ip) == 16 {
+			return strings.ToUpper(ip.String()) + "/" + strconv.Itoa(e[1])
+		}
+	}
+	return ip.String() + "/" + strconv.Itoa(e[1])
 }
 
 func listText(l [][]int, salt int) []string {
@@ -146,18 +162,59 @@ func netReplay(i int, seed int64, raw json.RawMessage) hx.Result {
 	c := newConc(i, seed)
 	defer c.done()
 	var hits int32
-	srv, err := newTLSSrv(addr, func(sni, host string) bool { atomic.AddInt32(&hits, 1); return true })
-	if err != nil {
-		panic(fmt.Errorf("c16: cannot listen on %s: %v", addr, err))
+	onReq := func(sni, host string) bool { atomic.AddInt32(&hits, 1); return true }
+	// one listener per address of the name, all on one port
+	addrs, verdicts := []string{addr}, []string{r.Verdict}
+	for k, x := range r.Extra {
+		addrs, verdicts = append(addrs, addrText(x)), append(verdicts, r.XVerdict[k])
 	}
-	defer srv.close()
+	var srvs []*tlsSrv
+	defer func() {
+		for _, s := range srvs {
+			s.close()
+		}
+	}()
+	for attempt := 0; ; attempt++ {
+		first, err := newTLSSrv(addrs[0], onReq)
+		if err != nil {
+			panic(fmt.Errorf("c16: cannot listen on %s: %v", addrs[0], err))
+		}
+		srvs = []*tlsSrv{first}
+		ok := true
+		for _, a := range addrs[1:] {
+			s, err := newTLSSrvOn(a, first.port, onReq)
+			if err != nil { // the port is taken on that address: start over with another one
+				ok = false
+				break
+			}
+			srvs = append(srvs, s)
+		}
+		if ok {
+			break
+		}
+		for _, s := range srvs {
+			s.close()
+		}
+		if attempt > 20 {
+			panic("c16: cannot find one free port on " + strings.Join(addrs, ", "))
+		}
+	}
+	srv := srvs[0]
 	opts := []fclient.ClientOption{fclient.WithAllowDenyNetworks(allow, deny), fclient.WithSkipVerify(true), fclient.WithTimeout(reqTimeout)}
 	target := net.JoinHostPort(addr, strconv.Itoa(srv.port))
 	switch r.Reach {
 	case "literal":
 	case "name", "dnscache":
 		h := "h." + c.label + ".c16.test"
-		c.z.setA(h, addr)
+		if (seed+int64(i))%2 == 0 { // order of the A records in the answer
+			c.z.setA(h, addrs...)
+		} else {
+			rev := []string{}
+			for k := len(addrs) - 1; k >= 0; k-- {
+				rev = append(rev, addrs[k])
+			}
+			c.z.setA(h, rev...)
+		}
 		target = net.JoinHostPort(h, strconv.Itoa(srv.port))
 		if r.Reach == "dnscache" {
 			opts = append(opts, fclient.WithDNSCache(fclient.NewDNSCache(8, time.Minute, allow, deny)))
@@ -190,22 +247,36 @@ func netReplay(i int, seed int64, raw json.RawMessage) hx.Result {
 		status = resp.StatusCode
 		_ = resp.Body.Close()
 	}
-	srv.close()
-	connected := atomic.LoadInt32(&srv.accepts) > 0
-	want := r.Verdict != "refuse" // "permit", or "open" when nothing is configured
-	got := "refuse"
-	if connected {
-		got = "permit"
+	for _, s := range srvs {
+		s.close()
 	}
-	if connected != want {
-		return hx.Result{OK: false, Key: fmt.Sprintf("C16/netpolicy/e2e/model=%s,code=%s/%s", r.Verdict, got, class),
-			What: fmt.Sprintf("Client with WithAllowDenyNetworks, %s, destination reached as %s (%s): model says %s; %d TCP connection(s) were made, request error: %v",
-				where, r.Reach, target, r.Verdict, atomic.LoadInt32(&srv.accepts), rerr),
-			Want: r.Verdict, Got: got}
+	// safety, address by address: a connection only where the model does not refuse
+	anyWanted, allWanted, anyConnected := false, true, false
+	for k, s := range srvs {
+		n := atomic.LoadInt32(&s.accepts)
+		want := verdicts[k] != "refuse" // "permit", or "open" when nothing is configured
+		anyWanted, allWanted, anyConnected = anyWanted || want, allWanted && want, anyConnected || n > 0
+		if n > 0 && !want {
+			return hx.Result{OK: false, Key: fmt.Sprintf("C16/netpolicy/e2e/model=%s,code=permit/%s", verdicts[k], class),
+				What: fmt.Sprintf("Client with WithAllowDenyNetworks, %s, destination reached as %s (%s, A records %v): model says %s for %s; %d TCP connection(s) were made to it, request error: %v",
+					where, r.Reach, target, addrs, verdicts[k], addrs[k], n, rerr),
+				Want: verdicts[k], Got: "permit"}
+		}
 	}
-	if want && (rerr != nil || status != 200 || atomic.LoadInt32(&hits) == 0) {
+	// and the request goes through if every address is permitted (with a mix of permitted and refused addresses the
+	// property does not say whether the permitted one has to be found)
+	if len(srvs) == 1 && anyWanted && !anyConnected {
+		return hx.Result{OK: false, Key: fmt.Sprintf("C16/netpolicy/e2e/model=%s,code=refuse/%s", r.Verdict, class),
+			What: fmt.Sprintf("Client with WithAllowDenyNetworks, %s, destination reached as %s (%s): model says %s; no TCP connection was made, request error: %v",
+				where, r.Reach, target, r.Verdict, rerr),
+			Want: r.Verdict, Got: "refuse"}
+	}
+	if allWanted && (rerr != nil || status != 200 || atomic.LoadInt32(&hits) == 0) {
 		return hx.Result{OK: false, Key: "C16/netpolicy/e2e/permitted-request-failed",
-			What: fmt.Sprintf("permitted request did not complete (%s via %s): status %d err %v", where, r.Reach, status, rerr)}
+			What: fmt.Sprintf("permitted request did not complete (%s via %s, A records %v): status %d err %v", where, r.Reach, addrs, status, rerr)}
+	}
+	if len(srvs) > 1 {
+		nt += "|2A:" + strings.Join(verdicts, ",")
 	}
 	return hx.Result{OK: true, NT: nt}
 }
